@@ -112,7 +112,7 @@ pub fn indep_enc(a: u16, t: u8, d: &[u8]) -> Vec<u8> {
 }
 
 fn c01(thorough: bool, rng: &mut Rng, out: &mut Out) {
-    out.rule = "data N for every N in 0..=300 (owned and borrowed); for every seed frame (address x type grid, boundary lengths x patterns, random frames): to_bytes, to_bytes_with_newline, from_bytes of both encodings; non-trivial = a frame case (valid frame through encoder or decoder) or a data case at the 255/256 boundary; distinct = distinct case line".into();
+    out.rule = "data N for every N in 0..=300 (owned and borrowed); for every seed frame (address x type grid, boundary lengths x patterns, random frames, uniform / counting payloads of every length 0..=255, every byte value alone / doubled / as a 16-byte chunk): to_bytes, to_bytes_with_newline, from_bytes of both encodings; non-trivial = a frame case (valid frame through encoder or decoder) or a data case at the 255/256 boundary; distinct = distinct case line".into();
     out.exhaustive_note = "data lengths 0..=300 and the 10-address x 256-type grid are enumerated completely; data contents are sampled".into();
     for n in 0..=300usize {
         let i = out.case(format!("data {}", n), n == 255 || n == 256);
@@ -121,7 +121,31 @@ fn c01(thorough: bool, rng: &mut Rng, out: &mut Out) {
             out.fail(i, format!("C01 Data::try_new({} bytes) gave '{}', expected '{}'", n, out.impls[i], want));
         }
     }
-    for (a, t, d) in seed_frames(thorough, rng) {
+    let mut frames = seed_frames(thorough, rng);
+    // content sweeps: every data length with uniform / counting payloads, and every byte value alone, doubled and
+    // as a full 16-byte chunk (a shortcut keyed on the payload's content, or one wrong table entry, must show)
+    for len in 0..=255usize {
+        frames.push((0x0102, 0, vec![0x00; len]));
+        frames.push((0xFFFE, 0x42, vec![0xFF; len]));
+        frames.push((0x0003, 0, (0..len).map(|i| (i as u8).wrapping_mul(3)).collect()));
+        // almost-uniform payloads: one differing byte at the end, near the end, in the middle, at the start
+        for pos in [len.wrapping_sub(1), len.wrapping_sub(3), len / 2, 0] {
+            if pos < len {
+                let mut z = vec![0x00u8; len];
+                z[pos] = 0x5A;
+                frames.push((0x0003, 0, z));
+                let mut f = vec![0xFFu8; len];
+                f[pos] = 0x00;
+                frames.push((0x0100, 0x42, f));
+            }
+        }
+    }
+    for v in 0..=255u8 {
+        frames.push((0x0003, 0, vec![v]));
+        frames.push((0x8000, v, vec![v, v]));
+        frames.push((v as u16 * 257, 0, vec![v; 16]));
+    }
+    for (a, t, d) in frames {
         let want = indep_enc(a, t, &d);
         out.stat(&format!("frame.len.{}", match d.len() { 0 => "0", 1 => "1", 2..=15 => "2-15", 16 => "16", 17..=254 => "17-254", _ => "255" }));
         let i = out.case(format!("enc {:04X} {:02X} {}", a, t, to_hex(&d)), true);
@@ -503,6 +527,34 @@ fn c02(thorough: bool, rng: &mut Rng, out: &mut Out) {
         let len = if rng.chance(80) { rng.range(0, 20) as usize } else { random_len(rng) };
         seeds.push((rng.next() as u16, rng.byte(), rng.bytes(len)));
     }
+    // coincidence seeds: the last data byte is what the checksum of the frame WITHOUT that byte would be (with
+    // its own, smaller length field — or with the length field left alone), and the same with the last two data
+    // bytes, so that a truncation just before the checksum leaves a string that a decoder lenient about the
+    // declared length would find checksum-valid; likewise the first data byte equal to the type, etc.
+    for k in 0..(if thorough { 24 } else { 8 }) {
+        let n = 1 + (k % 5) as usize;
+        let a = if k == 0 { 0 } else { rng.next() as u16 };
+        let t = if k == 0 { 0 } else { rng.byte() };
+        let body = if k == 0 { vec![0x10u8] } else { rng.bytes(n) };
+        let sum_hdr = |len: u8, d: &[u8]| -> u8 {
+            let mut s = len.wrapping_add((a >> 8) as u8).wrapping_add(a as u8).wrapping_add(t);
+            for b in d {
+                s = s.wrapping_add(*b);
+            }
+            0u8.wrapping_sub(s)
+        };
+        // (i) shorter frame with its own length byte, (ii) length byte of the longer frame kept
+        for len_byte in [body.len() as u8, body.len() as u8 + 1] {
+            let mut d = body.clone();
+            d.push(sum_hdr(len_byte, &body));
+            seeds.push((a, t, d));
+        }
+        // (iii) two bytes short
+        let mut d = body.clone();
+        d.push(sum_hdr(body.len() as u8, &body));
+        d.push(rng.byte());
+        seeds.push((a, t, d));
+    }
     // long frames: truncations that drop a multiple of 256 characters, length fields >= 0x80
     seeds.push((0, 0, vec![0u8; 128]));
     seeds.push((rng.next() as u16, rng.byte(), rng.bytes(130)));
@@ -751,6 +803,14 @@ pub fn specific_messages(thorough: bool, rng: &mut Rng) -> Vec<Message<'static>>
             let d = data_pattern(rng, len, k as u64);
             v.push(Message::SendData(Offset(off), Data::try_new(d).unwrap()));
         }
+        // uniform and almost-uniform payloads (blank chunks, a single odd byte at the end)
+        v.push(Message::SendData(Offset(32), Data::try_new(vec![0u8; len]).unwrap()));
+        v.push(Message::SendData(Offset(48), Data::try_new(vec![0xFFu8; len]).unwrap()));
+        if len > 0 {
+            let mut z = vec![0u8; len];
+            z[len - 1] = 0x5A;
+            v.push(Message::SendData(Offset(64), Data::try_new(z).unwrap()));
+        }
     }
     // SendData that collides in shape with other kinds' frames: one byte equal to a known code
     for b in [0xFFu8, 0x00, 0x55, 0x0F, 0xA1, 0x95] {
@@ -882,6 +942,49 @@ fn c19(thorough: bool, rng: &mut Rng, out: &mut Out) {
                 };
                 if out.impls[i] != want {
                     out.fail(i, format!("C19 from_bytes of family {:02X} id {:02X}: '{}', expected '{}'", fam, id, out.impls[i], want));
+                }
+            }
+        }
+    }
+    // arbitrary (not only known) family-4 / family-8 blocks: the virtual sign must derive width = sum of the four
+    // panel widths (bytes 5..=8, zero entries anywhere) resp. byte 7, and height = byte 4 resp. byte 5, and then hold
+    // exactly a page of that size; every zero / non-zero pattern of the four panel widths is enumerated
+    for pat in 0..16u8 {
+        for fam in [4u8, 8] {
+            for rep in 0..(if thorough { 6 } else { 2 }) {
+                let mut b = rng.bytes(16);
+                b[0] = fam;
+                b[1] = if rep == 0 { 0x99 } else { rng.byte() };
+                for k in 0..4 {
+                    b[5 + k] = if pat & (1 << k) != 0 { 1 + (rng.below(12) as u8) } else { 0 };
+                }
+                b[4] = 1 + rng.below(20) as u8;
+                if fam == 8 {
+                    b[5] = 1 + rng.below(20) as u8;
+                }
+                let (w, h) = if fam == 4 {
+                    (b[5] as u32 + b[6] as u32 + b[7] as u32 + b[8] as u32, b[4] as u32)
+                } else {
+                    (b[7] as u32, b[5] as u32)
+                };
+                let page = Page::new(PageId(7), w.max(1), h.max(1));
+                let mut line = format!("vbus M,0005 RO,0005,0 SD,0000,{} CS,0001 RO,0005,1", to_hex(&b));
+                let mut n = 0;
+                for (ci, c) in page.as_bytes().chunks(16).enumerate() {
+                    line.push_str(&format!(" SD,{:04X},{}", ci * 16, to_hex(c)));
+                    n += 1;
+                }
+                line.push_str(&format!(" CS,{:04X}", n));
+                let v = out.case(line, true);
+                out.stat("vsign.arbitrary-block");
+                let got = vsign::vsign_page_after_config(&b, &page);
+                if w > 0 && h > 0 {
+                    match got {
+                        Some((vw, vh, bytes)) if (vw, vh) == (w, h) && bytes == page.as_bytes() => {}
+                        other => out.fail(v, format!("C19 a virtual sign configured with block {} should hold a {}x{} page, holds {:?}", to_hex(&b), w, h, other.map(|(a, b, _)| (a, b)))),
+                    }
+                } else if got.is_some() {
+                    out.fail(v, format!("C19 a virtual sign configured with the zero-sized block {} holds a page", to_hex(&b)));
                 }
             }
         }
